@@ -108,7 +108,10 @@ def body_parts(body):
 
 
 def produced_bytes(body):
-    return b''.join(enc(v) for v in body_parts(body) if v is not None)
+    whole = b''.join(enc(v) for v in body_parts(body) if v is not None)
+    # kind 'file' with 'skip': the handler has already consumed the first `skip` bytes of the file object it returns (it
+    # read a preamble, or the whole file): the body the application produced is what is left from the current position
+    return whole[body.get('skip', 0):] if body.get('kind') == 'file' else whole
 
 
 # response.stream = True set by the handler although the body is complete: 'sstr' / 'sbytes' / 'slist' return the
@@ -163,7 +166,7 @@ def model_body(body, bufsize):
     if kind == 'sgen':
         return 'stream', vals
     if kind == 'file':
-        whole = b''.join(vals)
+        whole = b''.join(vals)[body.get('skip', 0):]
         return 'stream', [whole[i:i + bufsize] for i in range(0, len(whole), bufsize)]
     raise ValueError(kind)
 
@@ -258,6 +261,8 @@ class Impl:
                 spec['status'] = rq.get('status') or 500
             else:
                 spec['body'] = {'kind': b['kind'], 'parts': body_parts(b)}
+                if b.get('skip'):
+                    spec['body']['skip'] = b['skip']
                 if b['kind'] in FILE_LIKE:
                     spec['body']['limits'] = list(b['limits'])
                     spec['body']['clen'] = len(produced_bytes(b)) if b.get('clen') else None
@@ -692,6 +697,8 @@ def base_bodies():
         ('sgen-blank', {'kind': 'sgen', 'parts': [S(''), S('')]}),
         ('file', {'kind': 'file', 'parts': [Bt(b'file contents\n')]}),
         ('file-empty', {'kind': 'file', 'parts': []}),
+        ('file-behind-preamble', {'kind': 'file', 'parts': [Bt(b'#preamble\nfile contents\n')], 'skip': 10}),
+        ('file-consumed', {'kind': 'file', 'parts': [Bt(b'file contents\n')], 'skip': 14}),
         ('httperror', {'kind': 'httperror', 'parts': []}),
         # stream flag + complete body
         ('sstr', {'kind': 'sstr', 'parts': [S('héllo')]}),
@@ -736,7 +743,10 @@ def sized_body(rng, kind, size):
     if kind in ('str', 'bytes', 'file', 'sstr', 'sbytes'):
         if kind in ('str', 'sstr'):
             return {'kind': kind, 'parts': [['rs', 'x', size]]}
-        return {'kind': kind, 'parts': [['rb', '7a', size]]}
+        b = {'kind': kind, 'parts': [['rb', '7a', size]]}
+        if kind == 'file' and size and rng.random() < 0.35:
+            b['skip'] = rng.choice([1, size // 2, size - 1, size])     # the file object is handed over part-read
+        return b
     parts = []
     left = size
     while left > 0:
